@@ -70,7 +70,7 @@ def c03_strata(tier: str) -> List[Stratum]:
 
 
 def c08_strata(tier: str) -> List[Stratum]:
-    return [Stratum("states", scale(tier, 14000, 1500000), lambda r, i: tg.gen_c08(r)),
+    return [Stratum("states", scale(tier, 25000, 1500000), lambda r, i: tg.gen_c08(r)),
             Stratum("long-lived", scale(tier, 100, 5000), lambda r, i: tg.gen_long(r, r.randrange(150, 400)))]
 
 
@@ -79,14 +79,14 @@ def c09_strata(tier: str) -> List[Stratum]:
     return [
         Stratum("systematic", n * scale(tier, 1, 8), lambda r, i: tg.gen_c09_systematic(r, i), systematic=True,
                 note="every operation x every step x {eof, extra, every prefix length 1..109, one corrupted byte at every offset 0..109}"),
-        Stratum("random", scale(tier, 8000, 1200000),
+        Stratum("random", scale(tier, 16000, 1200000),
                 lambda r, i: tg.gen_mixed(r, 1, 6, ["ok", "eof", "truncate", "garbage", "garbage", "corrupt", "extra", "segment"],
                                           False, False)),
     ]
 
 
 def c10_strata(tier: str) -> List[Stratum]:
-    return [Stratum("schedules", scale(tier, 12000, 1200000), lambda r, i: tg.gen_c10(r))]
+    return [Stratum("schedules", scale(tier, 30000, 1200000), lambda r, i: tg.gen_c10(r))]
 
 
 def c16_strata(tier: str) -> List[Stratum]:
@@ -105,7 +105,7 @@ def c18_strata(tier: str) -> List[Stratum]:
     return [
         Stratum("all-sequences", n, lambda r, i: tg.gen_c18(r, i, m), systematic=True,
                 note="every well-behaved action sequence up to length %d over an 11-letter alphabet" % m),
-        Stratum("random", scale(tier, 6000, 600000), lambda r, i: tg.gen_c18(r)),
+        Stratum("random", scale(tier, 20000, 600000), lambda r, i: tg.gen_c18(r)),
         Stratum("long-lived", scale(tier, 100, 5000), lambda r, i: tg.gen_c18(r, long=True),
                 note="80-200 lifecycle actions on one API object"),
     ]
@@ -127,9 +127,9 @@ def c06_strata(tier: str) -> List[Stratum]:
     return [
         Stratum("every-length", 134 * scale(tier, 1, 20), lambda r, i: ug.gen_c06(r, i, True), systematic=True,
                 note="every length 0..400 with and without the magic (802 cases, 6 per scenario)"),
-        Stratum("model-codes", scale(tier, 256, 4096), lambda r, i: ug.gen_c06_models(r, i if tier != "quick" else r.randrange(4096)),
+        Stratum("model-codes", scale(tier, 512, 4096), lambda r, i: ug.gen_c06_models(r, i if tier != "quick" else r.randrange(4096)),
                 systematic=(tier != "quick"), note="thorough: all 65 536 model codes; quick: 4 096 sampled"),
-        Stratum("random", scale(tier, 8000, 800000), lambda r, i: ug.gen_c06(r, i, False)),
+        Stratum("random", scale(tier, 20000, 800000), lambda r, i: ug.gen_c06(r, i, False)),
     ]
 
 
@@ -145,8 +145,8 @@ def c17_strata(tier: str) -> List[Stratum]:
     return [
         Stratum("all-sequences", n, lambda r, i: ug.gen_c17(r, i, m), systematic=True,
                 note="every well-behaved sequence up to length %d over {start, stop, send, occupy i, release i} on 2 ports" % m),
-        Stratum("random", scale(tier, 9000, 900000), lambda r, i: ug.gen_c17(r)),
-        Stratum("several-bridges", scale(tier, 3000, 300000), lambda r, i: ug.gen_c17_two(r),
+        Stratum("random", scale(tier, 20000, 900000), lambda r, i: ug.gen_c17(r)),
+        Stratum("several-bridges", scale(tier, 8000, 300000), lambda r, i: ug.gen_c17_two(r),
                 note="two or three bridge objects in one process on overlapping or disjoint ports"),
         Stratum("long-lived", scale(tier, 100, 5000), lambda r, i: ug.gen_c17(r, long=True),
                 note="80-200 lifecycle actions on one bridge object"),
@@ -160,13 +160,13 @@ REAL_CLOCK = ("real: aioswitcher.schedule.tools / parser from the working tree, 
 
 def c11_strata(tier: str) -> List[Stratum]:
     return [
-        Stratum("sampled-minutes", scale(tier, 3000, 60000), lambda r, i: cg.gen_c11(r, False)),
-        Stratum("all-minutes", scale(tier, 150, 20000), lambda r, i: cg.gen_c11(r, True)),
+        Stratum("sampled-minutes", scale(tier, 6000, 60000), lambda r, i: cg.gen_c11(r, False)),
+        Stratum("all-minutes", scale(tier, 300, 20000), lambda r, i: cg.gen_c11(r, True)),
     ]
 
 
 def c13_strata(tier: str) -> List[Stratum]:
-    return [Stratum("grid", scale(tier, 12000, 1500000), lambda r, i: cg.gen_c13(r))]
+    return [Stratum("grid", scale(tier, 40000, 1500000), lambda r, i: cg.gen_c13(r))]
 
 
 def build() -> Dict[str, Prop]:
